@@ -1,5 +1,408 @@
-"""C13.1b for the hand-written (versioned) struct codecs — placeholder wired in below."""
+"""C13.1b for the hand-written struct codecs that are not one linear sequence (versioned blocks, ProofOfSpace, the
+option-pair helper users): *re-stream matching*.
+
+For every accepting path P of `parse` the value it constructs is substituted into the data conditions of every accepting
+path S of `stream`.  Exactly one S must be selected; its token sequence — with Option tokens expanded to their tag byte
+and payload, literal prefix bytes compared with the set of byte values P's own branch conditions admit for the u8 it
+read at that position (decided on the 256-value table), and `len as u32` + raw bytes folded into a `Bytes` read — must
+equal P's read sequence position by position, each streamed field being filled from the read at its own position.
+Conversely every accepting S must be selected by some P (otherwise `stream` can emit what `parse` never accepts)."""
+from .. import paths as P
+from ..mir import Body, strip_all, show
+from . import util as U
+
+EXEMPT = {
+    # dedicated rules elsewhere (C13.3 / C13.4 / C16) — leaf types whose bytes are produced by external code
+    "chia_bls::gtelement::GTElement", "chia_bls::public_key::PublicKey", "chia_bls::secret_key::SecretKey",
+    "chia_bls::signature::Signature", "chia_protocol::bytes::Bytes", "chia_protocol::bytes::BytesImpl<N>",
+    "chia_protocol::program::Program",
+}
+HELPER_PARSE = "chia_protocol::utils::parse"
+HELPER_STREAM = "chia_protocol::utils::stream"
+OPT = "core::option::Option<"
+
+
+def _short(name):
+    fl = U.flat(name)
+    return fl.split("::")[-1]
+
+
+def _key(ct):
+    return repr(strip_all(ct))
+
+
+class PSide:
+    """one accepting parse path"""
+
+    def __init__(self, c13, bp, events, fields):
+        self.reads = c13.parse_tokens(bp, events)          # [(kind, type|fn, callterm)]
+        self.index = {_key(t[2]): k for k, t in enumerate(self.reads)}
+        self.c13 = c13
+        agg = strip_all(P.ret_of(events))
+        self.built = None
+        if agg[0] == "agg" and agg[2] == "Ok":
+            inner = strip_all(agg[3][0])
+            if inner[0] == "agg" and len(inner[3]) == len(fields):
+                self.built = {f: self.abs(v) for f, v in zip(fields, inner[3])}
+        self.facts = [(self.abs(t), lab) for t, lab in P.conds(events) if lab[0] != "try"]
+
+    def abs(self, t):
+        ps = self.c13._payload_site(t)
+        if ps is not None and _key(ps) in self.index:
+            return ("rd", self.index[_key(ps)])
+        x = strip_all(t)
+        if not isinstance(x, tuple) or not x:
+            return ("opaque", str(x))
+        k = x[0]
+        if k == "c":
+            return ("c", x[2])
+        if k == "bin":
+            return ("bin", x[1], self.abs(x[2]), self.abs(x[3]))
+        if k == "un":
+            return ("un", x[1], self.abs(x[2]))
+        if k == "cast":
+            return ("cast", x[2], self.abs(x[1]))
+        if k == "agg":
+            if x[1] == "core::option::Option":
+                return ("none",) if x[2] == "None" else ("some", self.abs(x[3][0]))
+            return ("agg", x[1], x[2], tuple(self.abs(a) for a in x[3]))
+        if k == "f":
+            return ("fld", x[2], self.abs(x[1]))
+        if k == "dc":
+            return ("as", x[2], self.abs(x[1]))
+        if k == "call":
+            return ("call", _short(x[1]), tuple(self.abs(a) for a in x[2]))
+        return ("opaque", show(x)[:80])
+
+    def admissible(self, k):
+        """byte values of the u8 read at position k that this path's own branch conditions admit"""
+        rel = [(t, lab) for t, lab in self.facts if _leaves(t) == {("rd", k)} and lab[0] == "bool"]
+        out = set()
+        for v in range(256):
+            ok = True
+            for t, lab in rel:
+                r = _eval(t, {k: v})
+                if r is None or bool(r) != bool(lab[1]):
+                    ok = False
+                    break
+            if ok:
+                out.add(v)
+        return out, len(rel)
+
+
+def _leaves(t):
+    out = set()
+
+    def go(x):
+        if not isinstance(x, tuple) or not x:
+            return
+        if x[0] == "rd":
+            out.add(x)
+        elif x[0] == "c":
+            pass
+        elif x[0] in ("bin", "un", "cast"):
+            for y in x[1:]:
+                go(y)
+        else:
+            out.add(("other", repr(x)[:40]))
+    go(t)
+    return out
+
+
+def _eval(t, env):
+    k = t[0]
+    if k == "rd":
+        return env.get(t[1])
+    if k == "c":
+        return t[1] if isinstance(t[1], int) else None
+    if k == "cast":
+        v = _eval(t[2], env)
+        if v is None:
+            return None
+        bits = {"u8": 8, "u16": 16, "u32": 32, "u64": 64, "usize": 64, "bool": 1}.get(t[1])
+        return v & ((1 << bits) - 1) if bits else None
+    if k == "un":
+        v = _eval(t[2], env)
+        return None if v is None else (int(not v) if t[1] == "Not" else None)
+    if k == "bin":
+        a, b = _eval(t[2], env), _eval(t[3], env)
+        if a is None or b is None or t[1] not in P.FOLD:
+            return None
+        return P.FOLD[t[1]](a, b) & 0xFF if t[1] in ("Shl",) else P.FOLD[t[1]](a, b)
+    return None
+
+
+class SSide:
+    """one accepting stream path"""
+
+    def __init__(self, c13, bs, events):
+        self.c13 = c13
+        self.conds = []
+        for t, lab in P.conds(events):
+            if lab[0] == "try":
+                continue
+            a = self.abs(t)
+            if _mentions_self(a):
+                self.conds.append((a, lab))
+        self.toks = []
+        for e in P.calls(events):
+            _, bb, name, args, dest, ct = e
+            pos = [i for i, a in enumerate(args) if c13._is_sink(a, 2)]
+            if not pos:
+                continue
+            m = c13.RX.match(name)
+            if m and m.group(2) == "stream":
+                self.toks.append(("T", m.group(1), self.abs(args[0])))
+                continue
+            fl = U.flat(name)
+            if fl == HELPER_STREAM:
+                self.toks.append(("H", tuple(self.abs(a) for i, a in enumerate(args) if i not in pos)))
+                continue
+            if fl.split("::")[-1] in ("extend_from_slice", "extend", "write_all"):
+                others = [a for i, a in enumerate(args) if i not in pos]
+                self.toks.append(("B", self.abs(others[0])))
+                continue
+            self.toks.append(("?", fl))
+
+    def abs(self, t):
+        x = strip_all(t)
+        if not isinstance(x, tuple) or not x:
+            return ("opaque", str(x))
+        k = x[0]
+        if k == "arg":
+            return ("selfv",) if x[1] == 0 else ("opaque", "arg%d" % x[1])
+        if k == "c":
+            return ("c", x[2])
+        if k == "f":
+            inner = strip_all(x[1])
+            if inner[0] == "dc" and inner[2] == "Some" and x[2] == "0":
+                return ("some_payload", self.abs(inner[1]))
+            a = self.abs(x[1])
+            if a == ("selfv",):
+                return ("self", x[2])
+            return ("fld", x[2], a)
+        if k == "bin":
+            return ("bin", x[1], self.abs(x[2]), self.abs(x[3]))
+        if k == "un":
+            return ("un", x[1], self.abs(x[2]))
+        if k == "cast":
+            return ("cast", x[2], self.abs(x[1]))
+        if k == "dc":
+            return ("as", x[2], self.abs(x[1]))
+        if k == "call":
+            nm = _short(x[1])
+            args = tuple(self.abs(a) for a in x[2])
+            if nm in ("as_ref", "deref", "as_slice", "borrow", "clone", "as_deref") and len(args) == 1:
+                return args[0]
+            return ("call", nm, args)
+        return ("opaque", show(x)[:80])
+
+
+def _mentions_self(a):
+    if not isinstance(a, tuple):
+        return False
+    if a and a[0] in ("self", "selfv"):
+        return True
+    return any(_mentions_self(x) for x in a if isinstance(x, tuple))
+
+
+def subst(a, built):
+    if not isinstance(a, tuple) or not a:
+        return a
+    if a[0] == "self":
+        return built.get(a[1], ("opaque", "no-field:" + a[1]))
+    r = tuple(subst(x, built) if isinstance(x, tuple) else x for x in a)
+    if r[0] == "some_payload" and isinstance(r[1], tuple) and r[1] and r[1][0] == "some":
+        return r[1][1]
+    return r
+
+
+def selected(p, s):
+    """True / False / reason-string (undecidable)"""
+    for t, lab in s.conds:
+        v = subst(t, p.built)
+        if lab[0] == "is":
+            if v == ("none",):
+                got = "None"
+            elif isinstance(v, tuple) and v and v[0] == "some":
+                got = "Some"
+            else:
+                return "stream branches on the variant of %s, which parse fills with a value not known on this path" % (t,)
+            if got not in lab[1]:
+                return False
+            continue
+        if lab[0] == "bool":
+            known = [l for ft, l in p.facts if ft == v and l[0] == "bool"]
+            if known:
+                if bool(known[0][1]) != bool(lab[1]):
+                    return False
+                continue
+            ls = _leaves(v)
+            if len(ls) == 1 and next(iter(ls))[0] == "rd":
+                k = next(iter(ls))[1]
+                adm, n = p.admissible(k)
+                vals = {bool(_eval(v, {k: b})) for b in adm}
+                if vals == {bool(lab[1])}:
+                    continue
+                if vals == {not bool(lab[1])}:
+                    return False
+                return "condition %s is not decided by the bytes parse accepted on this path" % (v,)
+            if not ls:
+                r = _eval(v, {})
+                if r is not None:
+                    if bool(r) != bool(lab[1]):
+                        return False
+                    continue
+            return "condition %s cannot be evaluated on the value parse constructs" % (v,)
+        return "unsupported condition label %s" % (lab,)
+    return True
+
+
+def match_tokens(p, s):
+    """None if the selected stream path re-emits exactly what this parse path read, else a reason"""
+    k = 0          # next parse read
+    toks = list(s.toks)
+    i = 0
+    n = len(p.reads)
+
+    def expect_byte(vals):
+        nonlocal k
+        if k >= n or p.reads[k][0] != "T" or p.reads[k][1] != "u8":
+            return "stream emits a literal byte %s where parse does not read a u8 (read #%d)" % (sorted(vals), k)
+        adm, nf = p.admissible(k)
+        if adm != set(vals):
+            return "stream emits byte %s but parse's conditions on read #%d admit %s" % (sorted(vals), k, _fmtset(adm))
+        k += 1
+        return None
+
+    def emit(ty, v):
+        nonlocal k
+        if isinstance(v, tuple) and v and v[0] == "rd":
+            if v[1] != k:
+                return "value read at #%d is streamed at position #%d" % (v[1], k)
+            if p.reads[k][0] != "T" or p.reads[k][1] != ty:
+                return "read #%d has type %s but is streamed as %s" % (k, p.reads[k][1], ty)
+            k += 1
+            return None
+        if ty.startswith(OPT):
+            inner = ty[len(OPT):-1]
+            if v == ("none",):
+                return expect_byte({0})
+            if isinstance(v, tuple) and v and v[0] == "some":
+                r = expect_byte({1})
+                return r or emit(inner, v[1])
+        if ty == "u8" and isinstance(v, tuple) and v and v[0] == "c" and isinstance(v[1], int):
+            return expect_byte({v[1]})
+        return "cannot relate streamed %s value %s to a read" % (ty, _fmt(v))
+
+    while i < len(toks):
+        t = toks[i]
+        if t[0] == "T":
+            v = subst(t[2], p.built)
+            # `(buf.len() as u32).stream(out); out.extend_from_slice(buf)`  ==  Bytes read
+            if t[1] == "u32" and isinstance(v, tuple) and v[0] == "cast" and isinstance(v[2], tuple) and v[2][0] == "call" and v[2][1] == "len" \
+                    and i + 1 < len(toks) and toks[i + 1][0] == "B" and subst(toks[i + 1][1], p.built) == v[2][2][0]:
+                buf = v[2][2][0]
+                if isinstance(buf, tuple) and buf[0] == "call" and buf[1] in ("into_inner", "into", "to_vec") and buf[2] and buf[2][0] == ("rd", k) \
+                        and p.reads[k][0] == "T" and p.reads[k][1] == "chia_protocol::bytes::Bytes":
+                    k += 1
+                    i += 2
+                    continue
+                return "length-prefixed raw bytes %s are not the Bytes value read at #%d" % (_fmt(buf), k)
+            r = emit(t[1], v)
+            if r:
+                return r
+            i += 1
+            continue
+        if t[0] == "H":
+            vs = [subst(a, p.built) for a in t[1]]
+            if k < n and p.reads[k][0] == "?" and p.reads[k][1] == HELPER_PARSE and \
+                    vs == [("fld", "0", ("rd", k)), ("fld", "1", ("rd", k))]:
+                k += 1
+                i += 1
+                continue
+            return "option-pair helper streams %s, parse read #%d is %s" % ([_fmt(v) for v in vs], k, p.reads[k][:2] if k < n else None)
+        return "unrecognised stream token %s" % (t[:2],)
+    if k != n:
+        return "parse reads %d items, the selected stream path re-emits %d" % (n, k)
+    return None
+
+
+def _fmtset(s):
+    s = sorted(s)
+    return str(s) if len(s) <= 8 else "%d values %s.." % (len(s), s[:4])
+
+
+def _fmt(v):
+    return str(v)[:100]
 
 
 def run(ctx, impls, special):
-    pass
+    R = "C13.1b"
+    fb = ctx.fb
+    from . import c13
+    n = 0
+    for ty in special:
+        if ty in EXEMPT:
+            continue
+        ms = impls[ty]
+        adt = fb.adts.get(ty.split("<")[0])
+        if not adt or "parse" not in ms or "stream" not in ms:
+            ctx.missing(R, "versioned:" + ty, "impl / ADT facts missing")
+            continue
+        fields = [f["name"] for f in adt["variants"][0]["fields"]]
+        bs, bp = Body(ms["stream"], fb), Body(ms["parse"], fb)
+        ctx.touched(bs.path, bp.path)
+        try:
+            S = [SSide(c13, bs, e) for e, x in P.enumerate_paths(bs) if x[0] == "return" and P.ret_class(e) in ("Ok", "call")]
+            Pp = [PSide(c13, bp, e, fields) for e, x in P.enumerate_paths(bp) if x[0] == "return" and P.ret_class(e) == "Ok"]
+        except P.Budget:
+            ctx.missing(R, "versioned:" + ty, "path budget exceeded")
+            continue
+        # drop-flag duplicates
+        S = _dedup(S, lambda s: (repr(s.conds), repr(s.toks)))
+        Pp = _dedup(Pp, lambda p: (repr(p.facts), repr([(r[0], r[1]) for r in p.reads]), repr(p.built)))
+        n += 1
+        problems = []
+        hit = set()
+        if not S or not Pp:
+            problems.append("no accepting path found (stream %d, parse %d)" % (len(S), len(Pp)))
+        for pi, p in enumerate(Pp):
+            if p.built is None:
+                problems.append("parse path %d does not return Ok(Self{..})" % pi)
+                continue
+            sel = []
+            for si, s in enumerate(S):
+                r = selected(p, s)
+                if r is True:
+                    sel.append(si)
+                elif r is not False:
+                    problems.append("parse path %d vs stream path %d: %s" % (pi, si, r))
+            if len(sel) != 1:
+                problems.append("parse path %d (reads %s) selects %d stream paths" % (pi, [r[1].split("::")[-1] for r in p.reads], len(sel)))
+                continue
+            hit.add(sel[0])
+            r = match_tokens(p, S[sel[0]])
+            if r:
+                problems.append("parse path %d (reads %s): %s" % (pi, [r_[1].split("::")[-1] for r_ in p.reads], r))
+        for si in range(len(S)):
+            if si not in hit and not problems:
+                problems.append("stream path %d (conditions %s) is produced by no accepting parse path" % (si, [(_fmt(t), l) for t, l in S[si].conds]))
+        ctx.ob(R, "versioned:" + ty, not problems,
+               "every accepting parse path of %s is re-emitted byte for byte by the stream path its value selects (%d parse / %d stream paths)" % (
+                   ty.split("::")[-1], len(Pp), len(S)), found=problems[:4], where=ms["parse"].sp)
+        if n <= 2:
+            ctx.sample({"rule": R, "type": ty, "parse_paths": len(Pp), "stream_paths": len(S),
+                        "reads": [[r[1].split("::")[-1] for r in p.reads] for p in Pp][:4]})
+    ctx.floor(R, "versioned / helper struct codecs", n, 6)
+
+
+def _dedup(xs, key):
+    seen = set()
+    out = []
+    for x in xs:
+        k = key(x)
+        if k not in seen:
+            seen.add(k)
+            out.append(x)
+    return out
